@@ -1,0 +1,63 @@
+//go:build verif
+// +build verif
+
+package eth
+
+import (
+	"math/big"
+
+	"github.com/polynetwork/poly/native"
+)
+
+// Verification hooks (build tag verif only): exported wrappers around the unexported header rules and a
+// switch that lets synthetic proof-of-work headers pass the seal check (nothing else).
+
+// VerifAcceptSeal makes verifyHeader return nil before the ethash computation when set by the harness.
+var VerifAcceptSeal bool
+
+func verifSealAccept() bool { return VerifAcceptSeal }
+
+func VerifDifficultyCalculator(time *big.Int, parent *Header) *big.Int {
+	return difficultyCalculator(time, parent)
+}
+
+func VerifMakeDifficultyCalculator(bombDelay *big.Int) func(time uint64, parent *Header) *big.Int {
+	return makeDifficultyCalculator(bombDelay)
+}
+
+func VerifIsLondon(h *Header) bool       { return isLondon(h) }
+func VerifIsArrowGlacier(h *Header) bool { return isArrowGlacier(h) }
+
+func VerifDatasetSize(block uint64) uint64  { return datasetSize(block) }
+func VerifCacheSize(block uint64) uint64    { return cacheSize(block) }
+func VerifCalcDatasetSize(epoch int) uint64 { return calcDatasetSize(epoch) }
+func VerifCalcCacheSize(epoch int) uint64   { return calcCacheSize(epoch) }
+func VerifSeedHash(block uint64) []byte     { return seedHash(block) }
+
+// VerifConsts returns the package's rule constants as they are at run time.
+func VerifConsts() map[string]*big.Int {
+	u := func(v uint64) *big.Int { return new(big.Int).SetUint64(v) }
+	return map[string]*big.Int{
+		"BIG_1": BIG_1, "BIG_2": BIG_2, "BIG_9": BIG_9, "BIG_MINUS_99": BIG_MINUS_99,
+		"BLOCK_DIFF_FACTOR": BLOCK_DIFF_FACTOR, "DIFF_PERIOD": DIFF_PERIOD, "BOMB_DELAY": BOMB_DELAY,
+		"expDiffPeriod": expDiffPeriod, "big1": big1, "big2": big2, "big9": big9, "bigMinus99": bigMinus99,
+		"epochLength": u(epochLength), "maxEpoch": u(maxEpoch),
+		"datasetInitBytes": u(datasetInitBytes), "datasetGrowthBytes": u(datasetGrowthBytes), "mixBytes": u(mixBytes),
+		"cacheInitBytes": u(cacheInitBytes), "cacheGrowthBytes": u(cacheGrowthBytes), "hashBytes": u(hashBytes),
+		"BaseFeeChangeDenominator": u(BaseFeeChangeDenominator), "ElasticityMultiplier": u(ElasticityMultiplier),
+		"InitialBaseFee": u(InitialBaseFee), "allowedFutureBlockTimeSeconds": u(uint64(allowedFutureBlockTime.Seconds())),
+	}
+}
+
+// VerifPutGenesisBlockHeader installs a trust root without the operator witness (the witness rule is C18/C19).
+func VerifPutGenesisBlockHeader(service *native.NativeService, header Header, chainID uint64) error {
+	return putGenesisBlockHeader(service, header, chainID)
+}
+
+func VerifPutBlockHeader(service *native.NativeService, header Header, difficultySum *big.Int, chainID uint64) error {
+	return putBlockHeader(service, header, difficultySum, chainID)
+}
+
+func VerifAppendHeader2Main(service *native.NativeService, height uint64, hash [32]byte, chainID uint64) error {
+	return appendHeader2Main(service, height, hash, chainID)
+}
